@@ -207,6 +207,25 @@ def tlc(module, cfg, name, wd, workers=8, timeout=600, simulate=None, depth=None
     return res
 
 
+LIVENESS = []   # liveness results of this run; finish() copies them into the evidence
+
+
+def liveness(module, spec, constants, prop_name, name, wd, overrides=None, timeout=900, workers=6):
+    """complete-state-space check of a temporal property under weak fairness (no state constraint, so a
+    non-progress cycle cannot hide); a failure is an inconsistency of the specification -> ToolError"""
+    cfg = cfg_text(spec=spec, constants=constants, properties=[prop_name], overrides=overrides)
+    r = tlc(module, cfg, name, wd, workers=workers, timeout=timeout, coverage=False)
+    if r.violated or r.timed_out:
+        raise ToolError("specification-level liveness check failed: %s does not satisfy %s (%s)\n%s"
+                        % (module, prop_name, r.violated or "timeout", r.out[-1500:]))
+    if "Checking temporal properties for the complete state space" not in r.out:
+        raise ToolError("liveness check of %s did not examine the complete state space\n%s" % (module, r.out[-800:]))
+    d = {"module": module, "specification": spec, "property": prop_name, "distinct_states": r.distinct,
+         "constants": {k: (sorted(v) if isinstance(v, set) else v) for k, v in constants.items()}, "wall_s": round(r.wall, 1)}
+    LIVENESS.append(d)
+    return d
+
+
 def require_coverage(res, actions, module):
     missing = [a for a in actions if res.coverage.get(a, 0) == 0]
     if missing:
@@ -335,6 +354,8 @@ def finish(prop, tier, seed, level, coverage, assumptions, t0, violations, repla
         else:
             new.append(v)
     coverage = dict(coverage)
+    if LIVENESS:
+        coverage["liveness"] = list(LIVENESS)
     coverage["known_findings_hit"] = {i: n for i, (k, n) in kf.items()}
     write_evidence(prop, tier, seed, level, coverage, assumptions, time.time() - t0, len(new))
     for i, (k, n) in kf.items():
